@@ -38,6 +38,10 @@ func histTwoChain(seed uint64, steps int, spec bool) ([]string, int) {
 	w := &c08World{run: scratchRun(), rng: rr, tc: newTwoChain(4*time.Second, L2EnvOpts{}), denoms: []string{"uinit", "uusdc"}, feat: map[string]int{}, initial: map[string]*big.Int{"uinit": new(big.Int), "uusdc": new(big.Int)}}
 	w.tc.L1.L1.T, w.tc.L2.L2.T = t1, t2
 	w.tc.L1.L1.Speculate, w.tc.L2.L2.Speculate = spec, spec
+	if spec {
+		w.tc.L1.EnableShadow(seed)
+		w.tc.L2.EnableShadow(seed)
+	}
 	multi := 0
 	for s := 0; s < steps; s++ {
 		switch x := rr.Intn(100); {
@@ -92,6 +96,9 @@ func histValidators(seed uint64, steps int, spec bool) ([]string, int) {
 	l2.T = t
 	l2.Speculate = spec
 	w.specBlocks = spec
+	if spec {
+		w.e.EnableShadow(seed)
+	}
 	t.Add("GENESIS updates=%s", sim.FormatUpdates(l2.LastUpdates))
 	_, _ = l2.BeginBlock(1e9)
 	sensitive := 0
@@ -257,6 +264,10 @@ func histL1World(seed uint64, steps int, spec bool) ([]string, int) {
 	w := newL1World(scratchRun(), mon.NewRand(seed), MonSet{}, cfg)
 	w.env.L1.T = t
 	w.env.L1.Speculate = spec
+	w.env.L1.Shadow = nil
+	if spec {
+		w.env.EnableShadow(seed)
+	}
 	w.Run()
 	t.Add("EXPORT %s", l1ExportJSON(w.env.L1))
 	t.Add("DIGEST %s", sim.Digest(w.env.L1.Dump()))
@@ -277,6 +288,10 @@ func histPermHook(seed uint64, steps int, spec bool) ([]string, int) {
 	w := &c19World{run: scratchRun(), rng: r, env: newL1Env(0, nil), metadata: map[uint64][]byte{}, feat: map[string]int{}}
 	w.env.L1.T = t
 	w.env.L1.Speculate = spec
+	w.env.L1.Shadow = nil
+	if spec {
+		w.env.EnableShadow(seed)
+	}
 	for i := 0; i < 5; i++ {
 		w.channels = append(w.channels, ophosthook.PortChannelID{PortID: "transfer", ChannelID: fmt.Sprintf("channel-%d", i)})
 	}
